@@ -16,7 +16,10 @@ Sub-checks (one constructor of C14.Corr.case each):
            documents and entities (SP / IdP roles, several descriptors, with / without ArtifactResolutionService)
            -> Entity.__init__ / reload_metadata -> MetadataStore.construct_source_id -> Entity.sourceid;
            create_artifact / Entity.use_artifact at the issuer, apply_binding(HTTP-Artifact), SAMLart read from
-           the URL, artifact2destination at the resolver; judged against the metadata documents
+           the URL, artifact2destination at the resolver; judged against the metadata documents.  The documents
+           reach the resolver(s) as inline text, files, a directory, URLs or exported mdfiles, configured old-style
+           or as a class list, refreshed in place or under new names, by reload_metadata / store reload + new
+           Entity / new Config / a failing reload; one or two resolvers per process
 """
 import base64
 import hashlib
@@ -53,7 +56,13 @@ RULE = ("stdlib: seeded random + boundary byte strings through base64/html/urlli
         "unicode, markup characters, one a prefix of another, case variants, a duplicated one; index attributes canonical, "
         "with white space, with leading zeros; every 2- and 3-member federation whose members all publish index 0 and 1 in "
         "every document order; after every load: every member x both roles x every published index + an unpublished one, "
-        "issuers that are not (or no longer) in the metadata; artifacts by create_artifact and by Entity.use_artifact.  non-trivial = "
+        "issuers that are not (or no longer) in the metadata; artifacts by create_artifact and by Entity.use_artifact; "
+        "where the documents come from: every kind of metadata source (inline text, file, directory of files, URL served by a "
+        "local stand-in for HTTPBase.send, exported mdfile) in both configuration styles (dict keyed by type / list of class "
+        "entries), refreshed in place (same source names, new content) or under new names, through Entity.reload_metadata, "
+        "through MetadataStore.reload + a new Entity on the same Config, through a new Config, and by a reload that fails "
+        "half-way (the resolver must keep serving what it had); one or two resolvers in the process that read the same files "
+        "at different times, each judged against what IT loaded last.  non-trivial = "
         "distinct (sub-check, character classes present in RelayState/destination/message, type, outcome)")
 def regenerate_tables(ctx):
     """Translators.  v1: pack.add_query as it reads NOW -> coq/gen/C14Src.v (C14/Source.v proves it equal to the
@@ -210,6 +219,11 @@ def src2_items():
                       "int": lambda a: "(int_base %s %s)" % (a[0], a[1]) if len(a) > 1 else "(int_dec %s)" % a[0],
                       "_index.isascii": lambda a: "(str_isascii v__index)",
                       "_index.isdigit": lambda a: "(str_isdigit v__index)"}}),
+        # the table Entity.__init__ / reload_metadata store in self.sourceid: one dict.update per loaded source, nothing
+        # kept between calls (round 6; the per-source construct_source_id is an external call)
+        (S("mdstore.py"), "MetadataStore.construct_source_id", {
+            "name": "src2_store_construct_source_id", "params": ["self"], "extra_params": [("md_csi", F1)],
+            "calls": {"_md.construct_source_id": lambda a: "(md_csi v__md)"}}),
     ]
 
 
@@ -222,7 +236,8 @@ TRUSTED = ["source-to-Gallina translator harness/py2coq.py + coq/theories/Base/P
            "pack.add_query, pack._html_escape, pack.http_form_post_message, pack.http_redirect_message (theorem: sign=None/False), "
            "HTTPBase.use_http_artifact, HTTPBase.use_http_uri (theorem: request branch and unknown typ), "
            "s_utils.decode_base64_and_inflate, Entity.unravel, Entity.artifact2destination (theorem: artifacts whose decoded bytes "
-           "are < 128 - the embedding refuses to slice other strings; sha1 source ids are covered by the correspondence cases only)",
+           "are < 128 - the embedding refuses to slice other strings; sha1 source ids are covered by the correspondence cases only), "
+           "MetadataStore.construct_source_id (the per-source InMemoryMetaData.construct_source_id is a hypothesis)",
            "hypotheses of the c14_source2 theorems about external calls: html.escape(s, quote=True), base64.b64encode/b64decode, "
            "zlib.decompress(d, -15), urllib.parse.urlencode, str.encode('utf-8') = identity on the byte representation, "
            "bytes.decode('ascii'), getattr(soap, ...) + call, int(b, 16) on at most two bytes, str.isascii(), str.isdigit() on an ASCII "
@@ -413,6 +428,9 @@ class _Pool:
 
         return "[" + "; ".join("[" + "; ".join("{| fe_eid := %s; fe_sp := %s; fe_idp := %s |}" % (
             self.s(e["eid"]), descs(e["sp"]), descs(e["idp"])) for e in src["ents"]) + "]" for src in fed) + "]"
+
+    def cfg(self, named):
+        return "[" + "; ".join("(%s, %s)" % (self.s(n), self.fed([src])[1:-1]) for n, src in named) + "]"
 
     def toks(self, toks):
         out = []
@@ -867,9 +885,10 @@ def fed_index_value(spelled):
     return int(t) if t and all("0" <= c <= "9" for c in t) else None
 
 
-def fed_resolutions(rng, fed, extra_eids, limit, counter):
+def fed_resolutions(rng, fed, extra_eids, limit, counter, prefer=None, rcv=None):
     """Resolutions to try against a federation: every entity in both roles with every index it publishes, an index it
-    does not publish, entities that are not (or no longer) in the metadata."""
+    does not publish, entities that are not (or no longer) in the metadata.  prefer: entityIDs whose resolutions are
+    kept first when the list is cut to `limit`; rcv: number of the resolver that resolves (None: the only one)."""
     out = []
     ents = [e for src in fed for e in src["ents"]]
     for e in ents:
@@ -887,7 +906,13 @@ def fed_resolutions(rng, fed, extra_eids, limit, counter):
     for eid in extra_eids:
         if eid not in [e["eid"] for e in ents]:
             out.append((eid, rng.choice([0, 1]), rng.choice(["idpsso", "spsso"])))
-    if limit is not None and len(out) > limit:
+    if limit is not None and len(out) > limit and prefer:
+        first = [i for i, o_ in enumerate(out) if o_[0] in prefer and (fed_publishes(ents, o_) or o_[0] not in [e["eid"] for e in ents])]
+        rng.shuffle(first)
+        first = first[:max(1, limit - 2)]
+        rest = [i for i in range(len(out)) if i not in first]
+        out = [out[i] for i in sorted(first + rng.sample(rest, limit - len(first)))]
+    elif limit is not None and len(out) > limit:
         keep = sorted(rng.sample(range(len(out)), limit))
         out = [out[i] for i in keep]
     steps = []
@@ -901,19 +926,33 @@ def fed_resolutions(rng, fed, extra_eids, limit, counter):
         steps.append({"op": "res", "eid": eid, "idx": idx, "role": role, "via": via,
                       # 20 ASCII bytes, distinct per resolution; mostly zero bytes keep the Coq term short
                       "handle": (bytes([c & 0x7F, (c >> 7) & 0x7F, (c >> 14) & 0x7F]) + bytes(16) + b"\x01").hex()})
+        if rcv is not None:
+            steps[-1]["r"] = rcv
     return steps
+
+
+def fed_publishes(ents, res):
+    """Does the issuer of the resolution (eid, idx, role) publish a service with that index in that role?"""
+    eid, idx, role = res
+    for e in ents:
+        if e["eid"] == eid:
+            for d in e["idp" if role == "idpsso" else "sp"]:
+                if any(fed_index_value(i) == idx for i, _ in d):
+                    return True
+    return False
 
 
 def fed_source(ents, rng):
     return {"doc": "single" if len(ents) == 1 and rng.random() < 0.5 else "entities", "ents": ents}
 
 
-def fed_mutate(rng, fed, n0):
+def fed_mutate(rng, fed, n0, kind=None):
     """The federation after a metadata refresh: order changed, members removed / added / moved to other endpoints."""
     import copy
 
     fed = copy.deepcopy(fed)
-    kind = rng.choice(["reverse", "rotate", "remove", "add", "move", "reshape", "merge"])
+    if kind is None:
+        kind = rng.choice(["reverse", "rotate", "remove", "add", "move", "reshape", "merge"])
     ents = [e for s_ in fed for e in s_["ents"]]
     if kind == "reverse":
         for s_ in fed:
@@ -1005,6 +1044,121 @@ def gen_federations(ctx):
     return cases
 
 
+# ---- where the documents come from (strengthening round 6): the KIND of every metadata source (inline text, file,
+# directory of files, URL, loader function, exported "mdfile"), the STYLE of the configuration (old-style dict keyed by
+# type / list of {"class": ..., "metadata": [...]}), the NAMES of the sources across refreshes (same file / URL / loader
+# with new content - the ordinary refresh -, or new names), HOW the new metadata gets into the resolver
+# (Entity.reload_metadata, MetadataStore.reload + a new Entity on the same Config object, a new Entity on a new Config, a
+# reload that fails half-way and must leave everything as it was) and HOW MANY resolvers live in the process
+# (two of them reading the same files at different times).
+# ("loader" is not in the list: MetaDataLoader.__init__ calls MetaDataFile.__init__ without a file name, which raises
+# SAMLError("No file specified.") - such a source cannot be configured at all in /repo; fed_materialise supports it)
+FED_KINDS = ["inline", "local", "dir", "remote", "mdfile"]
+FED_TYPEKEY = {"inline": "inline", "local": "local", "dir": "local", "remote": "remote", "loader": "loader", "mdfile": "mdfile"}
+FED_CLASS = {"inline": "saml2.mdstore.InMemoryMetaData", "local": "saml2.mdstore.MetaDataFile", "dir": "saml2.mdstore.MetaDataFile",
+             "remote": "saml2.mdstore.MetaDataExtern", "loader": "saml2.mdstore.MetaDataLoader", "mdfile": "saml2.mdstore.MetaDataMD"}
+FED_HOWS = ["init", "reload", "rebuild", "newconf", "fail"]
+
+
+def fed_configure(fed, style, kinds, names, dirname):
+    """-> (the sources in the order in which a configuration of that style loads them, the configuration).
+    Old style: a dict keyed by type, so sources of one type are neighbours (a directory is one entry of "local");
+    class list: MetadataStore.imp returns after a directory, so the directory comes last."""
+    items = list(zip(fed, kinds, names))
+    if style == "dict":
+        out = []
+        for tk in dict.fromkeys(FED_TYPEKEY[k] for _, k, _ in items):
+            grp = [it for it in items if FED_TYPEKEY[it[1]] == tk]
+            dirs = [it for it in grp if it[1] == "dir"]
+            if dirs:
+                rest = [it for it in grp if it[1] != "dir"]
+                n_before = len([it for it in grp[:grp.index(dirs[0])] if it[1] != "dir"])
+                grp = rest[:n_before] + dirs + rest[n_before:]
+            out += grp
+    else:
+        out = [it for it in items if it[1] != "dir"] + [it for it in items if it[1] == "dir"]
+    return [it[0] for it in out], {"style": style, "dir": dirname, "srcs": [{"kind": k, "name": n} for _, k, n in out]}
+
+
+def fed_changed(old, new):
+    """entityIDs whose record differs between two federations (moved, added, removed)"""
+    a = {e["eid"]: e for s_ in old for e in s_["ents"]}
+    b = {e["eid"]: e for s_ in new for e in s_["ents"]}
+    return [k for k in list(b) + [k for k in a if k not in b] if a.get(k) != b.get(k)]
+
+
+def gen_fed_sources(ctx):
+    rng = ctx.rng
+    cases = []
+    counter = [0]
+
+    def load(steps, state, r, fed, how, style, palette, stable, ev):
+        """one (re)load of resolver r; state[r] = the federation it serves afterwards"""
+        n = len(fed)
+        kinds = [palette[i % len(palette)] for i in range(n)]
+        names = ["s%d" % i if stable else "t%d-%d" % (ev, i) for i in range(n)]
+        fed, cfg = fed_configure(fed, style, kinds, names, "d" if stable else "d%d" % ev)
+        if how == "fail":
+            cfg["missing"] = True
+        steps.append({"op": "load", "r": r, "how": how, "fed": fed, "cfg": cfg})
+        if how != "fail":
+            state[r] = fed
+        return fed
+
+    def probe(steps, state, r, prefer, limit, extra):
+        steps += fed_resolutions(rng, state[r], extra, limit, counter, prefer=prefer, rcv=r)
+
+    def members(k):
+        eids = rng.sample(FED_EIDS, k)
+        return eids, [fed_entity(rng, eid, j, rng.choice(["idp", "idp", "sp", "both", "idp2"])) for j, eid in enumerate(eids)]
+
+    # (3a) the ordinary refresh, for every kind of source in both configuration styles: the sources keep their names,
+    #      one member has moved its endpoints and one has joined; then once more through the other way of reloading
+    for ki, kind in enumerate(FED_KINDS):
+        for si, style in enumerate(("dict", "list")):
+            eids, ents = members(3)
+            fed = [fed_source(ents[:2], rng), fed_source(ents[2:], rng)]
+            steps, state = [], {}
+            fed = load(steps, state, 0, fed, "init", style, [kind], True, 0)
+            probe(steps, state, 0, None, 3, [FED_UNKNOWN])
+            for ev, how in enumerate(["reload", "rebuild"] if (ki + si) % 2 == 0 else ["rebuild", "reload"], 1):
+                new = fed_mutate(rng, fed_mutate(rng, state[0], 20 * ev, "move"), 20 * ev, "add")
+                prefer = fed_changed(state[0], new)
+                load(steps, state, 0, new, how, style, [kind], True, ev)
+                probe(steps, state, 0, prefer, 5, [FED_UNKNOWN] + eids)
+            cases.append({"k": "artfed", "recvs": ["sp" if (ki + si) % 2 else "idp"], "steps": steps})
+    # (3b) random: one or two resolvers, mixed kinds, any way of reloading, names kept or new
+    for c in range(80 if ctx.thorough else 14):
+        recvs = [rng.choice(["sp", "idp"]) for _ in range(1 + c % 2)]
+        palette = rng.sample(FED_KINDS, rng.randint(1, 3))
+        steps, state = [], {}
+        eids, ents = members(rng.randint(2, 5))
+        fed, i = [], 0
+        while i < len(ents):
+            k = rng.randint(1, 2)
+            fed.append(fed_source(ents[i:i + k], rng))
+            i += k
+        for r in range(len(recvs)):
+            # the second resolver starts from what the federation publishes a little later, under the same names
+            f0 = fed if r == 0 else fed_mutate(rng, fed, 7, rng.choice(["move", "add", "remove"]))
+            load(steps, state, r, f0, "init", rng.choice(["dict", "list"]), palette, True, 0)
+            probe(steps, state, r, fed_changed(fed, f0), 3, [FED_UNKNOWN])
+        for ev in range(1, rng.randint(2, 4) + 1):
+            r = rng.randrange(len(recvs))
+            how = rng.choice(["reload", "reload", "rebuild", "newconf", "fail"])
+            new = fed_mutate(rng, state[r], 20 * ev, rng.choice(["move", "add", "remove", "reshape", "reverse", "move"]))
+            if rng.random() < 0.3:
+                new = fed_mutate(rng, new, 20 * ev + 3, rng.choice(["move", "add"]))
+            prefer = fed_changed(state[r], new)
+            load(steps, state, r, new, how, rng.choice(["dict", "list"]), palette, rng.random() < 0.75, ev)
+            probe(steps, state, r, prefer, 4, [FED_UNKNOWN] + eids)
+            for other in range(len(recvs)):
+                if other != r:      # ... and the other resolver still serves what IT has loaded
+                    probe(steps, state, other, prefer, 2, [])
+        cases.append({"k": "artfed", "recvs": recvs, "steps": steps})
+    return cases
+
+
 def _weight(c):
     """Rough size of the Coq term of a case (bytes of string data), for balancing the shards."""
     k = c["k"]
@@ -1045,7 +1199,7 @@ def balance(cases):
 def generate(ctx):
     msgs = pool(ctx.thorough)
     ent("sp_ars")      # built before the driver forks its observers
-    return balance(gen_stdlib(ctx) + gen_bindings(ctx, msgs) + gen_artifacts(ctx) + gen_federations(ctx))
+    return balance(gen_stdlib(ctx) + gen_bindings(ctx, msgs) + gen_artifacts(ctx) + gen_federations(ctx) + gen_fed_sources(ctx))
 
 
 # ---------------------------------------------------------------------------- observation
@@ -1160,52 +1314,216 @@ def _view(ent_, key):
             for d in ent_[key]]
 
 
+# ---- artfed: where the documents come from.  Files live in a scratch directory of the case, URLs are served by a local
+# stand-in for HTTPBase.send (harness-local: harness/env.py has no HTTP stand-in), loaders are module-level functions.
+_FED_HTTP = {}             # url -> bytes, for the duration of one artfed case
+_FED_LOADER_DOCS = {}      # slot -> str / bytes
+_FED_ATTRC = []
+
+
+class _FedResponse:
+    def __init__(self, content):
+        self.status_code = 200 if content is not None else 404
+        self.content = content or b""
+        self.text = self.content.decode("utf-8")
+        self.headers = {}
+
+
+def _fed_http_send(self, url, method="GET", **kwargs):
+    return _FedResponse(_FED_HTTP.get(url))
+
+
+def _mk_loader(slot):
+    def loader():
+        return _FED_LOADER_DOCS[slot]
+
+    loader.__name__ = loader.__qualname__ = "fed_loader_%d" % slot
+    return loader
+
+
+for _i in range(16):
+    globals()["fed_loader_%d" % _i] = _mk_loader(_i)
+
+
+def fed_md_export(xml):
+    """What tools/mdexport writes for a document: the JSON text that MetaDataMD ("mdfile") reads."""
+    from saml2.attribute_converter import ac_factory
+    from saml2.mdstore import InMemoryMetaData
+
+    if not _FED_ATTRC:
+        _FED_ATTRC.append(ac_factory())
+    md = InMemoryMetaData(_FED_ATTRC[0], xml)
+    md.load()
+    return md.dumps()
+
+
+def _write(path, text):
+    with open(path, "w", encoding="utf-8") as fp:
+        fp.write(text)
+
+
+def fed_materialise(root, cfg, docs, state):
+    """Publish the documents of one load under their names (write the files, serve the URLs, arm the loaders) and build
+    the `metadata` configuration.  -> (configuration, name of every source as the Coq case spells it, loading order:
+    indexes into cfg["srcs"] - the files of a directory are read in os.listdir order)."""
+    style = cfg["style"]
+    entries, names, dir_at, dir_files = [], [], None, {}
+    for j, (src, xml) in enumerate(zip(cfg["srcs"], docs)):
+        k, n = src["kind"], src["name"]
+        if k == "inline":
+            if style == "dict":       # key = a counter of the store
+                state["ii"] += 1
+                names.append("inline#%d" % state["ii"])
+            else:                     # key = the text
+                names.append("inline:" + hashlib.sha1(xml.encode("utf-8")).hexdigest()[:12])
+            entries.append((k, xml))
+        elif k == "local":
+            path = os.path.join(root, n + ".xml")
+            _write(path, xml)
+            entries.append((k, path))
+            names.append("file:%s.xml" % n)
+        elif k == "dir":
+            d = os.path.join(root, cfg["dir"])
+            if dir_at is None:
+                dir_at = j
+                os.makedirs(d, exist_ok=True)
+                for f in os.listdir(d):        # the operator removes what is no longer published
+                    os.remove(os.path.join(d, f))
+                entries.append((k, d))
+            _write(os.path.join(d, n + ".xml"), xml)
+            dir_files[n + ".xml"] = j
+            names.append("file:%s/%s.xml" % (cfg["dir"], n))
+        elif k == "remote":
+            url = "https://md.example.org/%s.xml" % n
+            _FED_HTTP[url] = xml.encode("utf-8")
+            entries.append((k, url))
+            names.append("url:" + n)
+        elif k == "loader":
+            slot = state["slots"].setdefault(n, len(state["slots"]))
+            _FED_LOADER_DOCS[slot] = xml if slot % 2 else xml.encode("utf-8")
+            entries.append((k, slot))
+            names.append("loader:" + n)
+        elif k == "mdfile":
+            path = os.path.join(root, n + ".json")
+            _write(path, fed_md_export(xml))
+            entries.append((k, path))
+            names.append("mdfile:" + n)
+        else:
+            raise ValueError(k)
+    missing = os.path.join(root or "/nonexistent", "no-such-file.xml")
+    if style == "dict":
+        conf = {}
+        for j, (k, v) in enumerate(entries):
+            if k == "remote":
+                v = {"url": v, "cert": None} if j % 2 else {"url": v}
+            elif k == "loader":
+                v = globals()["fed_loader_%d" % v]
+            conf.setdefault(FED_TYPEKEY[k], []).append(v)
+        if cfg.get("missing"):
+            conf.setdefault("local", []).append(missing)
+    else:
+        conf = []
+        for j, (k, v) in enumerate(entries):
+            if k == "loader":
+                v = "harness.c14.fed_loader_%d" % v
+            if conf and conf[-1]["class"] == FED_CLASS[k] and k != "dir" and j % 3:
+                conf[-1]["metadata"].append((v,))
+            else:
+                conf.append({"class": FED_CLASS[k], "metadata": [(v,)]})
+        if cfg.get("missing"):
+            conf.insert(0, {"class": FED_CLASS["local"], "metadata": [(missing,)]})
+    order = [j for j in range(len(names)) if cfg["srcs"][j]["kind"] != "dir" or j == dir_at]
+    if dir_at is not None:
+        listing = [dir_files[f] for f in os.listdir(os.path.join(root, cfg["dir"]))]
+        at = order.index(dir_at)
+        order[at:at + 1] = listing
+    return conf, names, order
+
+
+def fed_default_cfg(fed):
+    """the configuration of the cases of rounds 2..5: every document inline, old-style dict"""
+    return {"style": "dict", "dir": "d", "srcs": [{"kind": "inline", "name": ""} for _ in fed]}
+
+
+def fed_recvs(case):
+    return case["recvs"] if "recvs" in case else [case["recv"]]
+
+
 def observe_artfed(case):
+    import shutil
+    import tempfile
+
     from saml2.entity import create_artifact
+    from saml2.httpbase import HTTPBase
 
     env.VClock(1700000000).install()
-    recv = None
+    kinds = fed_recvs(case)
+    recvs = [None] * len(kinds)
+    state = {"ii": 0, "slots": {}}
     steps = []
     eids = []
-    for st in case["steps"]:
-        if st["op"] == "load":
-            docs = fed_docs(st["fed"])
-            for src in st["fed"]:
-                eids += [e["eid"] for e in src["ents"]]
+    root = None
+    if any("cfg" in st for st in case["steps"]):
+        root = tempfile.mkdtemp(prefix="c14fed-")
+    saved_send = HTTPBase.send
+    HTTPBase.send = _fed_http_send
+    _FED_HTTP.clear()
+    _FED_LOADER_DOCS.clear()
+    try:
+        for st in case["steps"]:
+            r = st.get("r", 0)
+            recv = recvs[r]
+            if st["op"] == "load":
+                docs = fed_docs(st["fed"])
+                for src in st["fed"]:
+                    eids += [e["eid"] for e in src["ents"]]
+                cfg = st.get("cfg") or fed_default_cfg(st["fed"])
+                how = st.get("how") or ("init" if recv is None else "reload")
+                names, order = [], list(range(len(docs)))
+                try:
+                    conf, names, order = fed_materialise(root, cfg, docs, state)
+                    if how in ("init", "newconf") or recv is None:
+                        recv = (world.make_sp if kinds[r] == "sp" else world.make_idp)(metadata=conf)
+                        ok = True
+                    elif how == "rebuild":      # the store is refreshed, then a new entity is built on the same Config
+                        recv.metadata.reload(conf)
+                        recv = type(recv)(config=recv.config)
+                        ok = True
+                    else:
+                        ok = recv.reload_metadata(conf)
+                    recvs[r] = recv
+                except Exception as ex:
+                    ok = _exc(ex)
+                sm = [] if recv is None else [[kk.hex(), _view(v, "spsso_descriptor"), _view(v, "idpsso_descriptor")]
+                                              for kk, v in recv.sourceid.items()]
+                steps.append({"ok": ok, "sm": sm, "names": names, "order": order})
+                continue
+            eids.append(st["eid"])
+            handle = bytes.fromhex(st["handle"])
             try:
-                if recv is None:
-                    recv = (world.make_sp if case["recv"] == "sp" else world.make_idp)(metadata_xml=docs)
-                    ok = True
+                if st["via"] == "use":
+                    issuer = ent("sp" if st["eid"] == world.SP_ID else "idp")
+                    art = issuer.use_artifact("<m>%d</m>" % st["idx"], st["idx"])
+                    handle = base64.b64decode(art)[-20:]      # random part of the handle: read back from the artifact
                 else:
-                    ok = recv.reload_metadata({"inline": docs})
+                    issuer = ent("sp")
+                    art = create_artifact(st["eid"].encode("utf-8") if st["via"] == "create-eid-bytes" else st["eid"],
+                                          handle.decode("ascii") if st["via"] == "create-handle-str" else handle, st["idx"])
+                info = issuer.apply_binding(ARTIFACT, art, "https://rp.example.org/art?keep=1", "rs&%d#?=" % st["idx"],
+                                            response=False, sign=False)
+                got = dict(urllib.parse.parse_qsl(urllib.parse.urlsplit(info["url"]).query)).get("SAMLart", "")
             except Exception as ex:
-                ok = _exc(ex)
-            sm = [] if recv is None else [[kk.hex(), _view(v, "spsso_descriptor"), _view(v, "idpsso_descriptor")]
-                                          for kk, v in recv.sourceid.items()]
-            steps.append({"ok": ok, "sm": sm})
-            continue
-        eids.append(st["eid"])
-        handle = bytes.fromhex(st["handle"])
-        try:
-            if st["via"] == "use":
-                issuer = ent("sp" if st["eid"] == world.SP_ID else "idp")
-                art = issuer.use_artifact("<m>%d</m>" % st["idx"], st["idx"])
-                handle = base64.b64decode(art)[-20:]      # random part of the handle: read back from the artifact
-            else:
-                issuer = ent("sp")
-                art = create_artifact(st["eid"].encode("utf-8") if st["via"] == "create-eid-bytes" else st["eid"],
-                                      handle.decode("ascii") if st["via"] == "create-handle-str" else handle, st["idx"])
-            info = issuer.apply_binding(ARTIFACT, art, "https://rp.example.org/art?keep=1", "rs&%d#?=" % st["idx"],
-                                        response=False, sign=False)
-            got = dict(urllib.parse.parse_qsl(urllib.parse.urlsplit(info["url"]).query)).get("SAMLart", "")
-        except Exception as ex:
-            steps.append({"art": "", "handle": handle.hex(), "dest": ["err", "send:" + _exc(ex)]})
-            continue
-        try:
-            dest = ["ok", recv.artifact2destination(got, st["role"])]
-        except Exception as ex:
-            dest = ["err", _exc(ex)]
-        steps.append({"art": got, "handle": handle.hex(), "dest": dest})
+                steps.append({"art": "", "handle": handle.hex(), "dest": ["err", "send:" + _exc(ex)]})
+                continue
+            try:
+                dest = ["ok", recv.artifact2destination(got, st["role"])]
+            except Exception as ex:
+                dest = ["err", _exc(ex)]
+            steps.append({"art": got, "handle": handle.hex(), "dest": dest})
+    finally:
+        HTTPBase.send = saved_send
+        if root is not None:
+            shutil.rmtree(root, ignore_errors=True)
     sha = []
     for e_ in eids:
         if e_ not in [x[0] for x in sha]:
@@ -1468,12 +1786,18 @@ def _coq_case(P, case, obs):
         return "KArtRaw %s %s %s" % (P.sm(obs["sm"]), P.s(case["raw"]), P.ares(obs["dest"]))
     if k == "artfed":
         steps = []
+        served = {}       # per resolver: the configuration it serves (a reload that reported failure changes nothing)
         for st, o in zip(case["steps"], obs["steps"]):
+            r = st.get("r", 0)
             if st["op"] == "load":
-                steps.append("FLoad %s %s" % (P.fed(st["fed"]), P.fsm(o["sm"])))
+                names = o["names"] if len(o["names"]) == len(st["fed"]) else ["?%d" % j for j in range(len(st["fed"]))]
+                cfg = [(names[j], st["fed"][j]) for j in o["order"]]
+                if o["ok"] is True or r not in served:
+                    served[r] = cfg
+                steps.append("FLoad %d %s %s" % (r, P.cfg(served[r]), P.fsm(o["sm"])))
             else:
-                steps.append("FResolve %s %s (Z.to_nat (%d)%%Z) %s %s %s" % (
-                    P.s(st["eid"]), P.s(bytes.fromhex(o["handle"])), st["idx"], "RIdp" if st["role"] == "idpsso" else "RSp",
+                steps.append("FResolve %d %s %s (Z.to_nat (%d)%%Z) %s %s %s" % (
+                    r, P.s(st["eid"]), P.s(bytes.fromhex(o["handle"])), st["idx"], "RIdp" if st["role"] == "idpsso" else "RSp",
                     P.s(o["art"]), P.ares(o["dest"])))
         return "KArtFed %s [%s]" % (P.dtab([[_b(a).hex(), b] for a, b in obs["sha"]]), "; ".join(steps))
     raise ValueError(k)
@@ -1510,15 +1834,19 @@ def nontrivial(case, obs):
     if k == "artfed":
         loads = [st["fed"] for st in case["steps"] if st["op"] == "load"]
         outs = [o["dest"][0] if o["dest"][0] == "err" else ("loc" if o["dest"][1] else "none") for o in obs["steps"] if "dest" in o]
-        return (k, case["recv"], len(loads), tuple(tuple(len(src["ents"]) for src in f) for f in loads),
-                outs.count("loc"), outs.count("none"), outs.count("err"))
+        hows = tuple((st.get("how", ""), st["cfg"]["style"], tuple(sorted({x["kind"] for x in st["cfg"]["srcs"]})),
+                      st["cfg"]["srcs"][0]["name"][:1] if st["cfg"]["srcs"] else "")
+                     for st in case["steps"] if st["op"] == "load" and "cfg" in st)
+        return (k, tuple(fed_recvs(case)), len(loads), tuple(tuple(len(src["ents"]) for src in f) for f in loads),
+                outs.count("loc"), outs.count("none"), outs.count("err"), hows)
     return None
 
 
 def histogram(cases, observed):
     h = {"by_subcheck": {}, "post_outcomes": {}, "redirect_outcomes": {}, "unravel_outcomes": {}, "artifact_outcomes": {},
          "messages": {}, "relaystate_classes": {}, "destination_classes": {}, "destination_query_state": {},
-         "artifact_index_ranges": {}, "federation_loads": {}, "federation_resolutions": {}, "federation_issuer_position": {}}
+         "artifact_index_ranges": {}, "federation_loads": {}, "federation_resolutions": {}, "federation_issuer_position": {},
+         "federation_source_kinds": {}, "federation_refresh": {}}
 
     def inc(d, key):
         d[key] = d.get(key, 0) + 1
@@ -1543,16 +1871,35 @@ def histogram(cases, observed):
                 i = c["idx"]
                 inc(h["artifact_index_ranges"], "0-15" if i < 16 else "16-255" if i < 256 else "256-4095" if i < 4096 else "4096-65535")
         elif k == "artfed":
-            cur, first = None, True
+            curs, prev_names = {}, {}
+            cur = None
             for st, so in zip(c["steps"], o["steps"]):
+                r_ = st.get("r", 0)
                 if st["op"] == "load":
+                    first = r_ not in curs
+                    if so["ok"] is True or first:
+                        curs[r_] = st["fed"]
                     cur = st["fed"]
                     n_ars = len(so["sm"])
+                    how = st.get("how") or ("init" if first else "reload")
                     inc(h["federation_loads"], "%s: %s, %s with an ArtifactResolutionService" % (
-                        "construction" if first else "reload_metadata", "one document" if len(cur) == 1 else "several documents",
+                        "construction" if how == "init" else "reload_metadata" if how == "reload" else how,
+                        "one document" if len(cur) == 1 else "several documents",
                         "no entity" if n_ars == 0 else "one entity" if n_ars == 1 else "several entities"))
-                    first = False
+                    cfg_ = st.get("cfg") or fed_default_cfg(cur)
+                    for x in cfg_["srcs"]:
+                        inc(h["federation_source_kinds"], "%s (%s configuration)" % (x["kind"], cfg_["style"]))
+                    names_ = [x["kind"] + ":" + x["name"] for x in cfg_["srcs"] if x["kind"] != "inline"]
+                    if not first:
+                        inc(h["federation_refresh"], "%s, %s, reported %s; %d resolver(s) in the process" % (
+                            how, "no named source" if not names_ else
+                            "same source names as before" if sorted(names_) == sorted(prev_names.get(r_, [])) else
+                            "some source names as before" if set(names_) & set(prev_names.get(r_, [])) else "new source names",
+                            so["ok"], len(fed_recvs(c))))
+                    if so["ok"] is True or first:
+                        prev_names[r_] = names_
                     continue
+                cur = curs.get(r_, [])
                 d = so["dest"]
                 inc(h["federation_resolutions"], "error:" + d[1] if d[0] == "err" else ("resolved" if d[1] else "no-endpoint"))
                 pos = "not in the metadata"
